@@ -13,6 +13,7 @@ from .ast import (
     ButtonPoll,
     CatchClause,
     ConditionalBranch,
+    ContinueStmt,
     ExprStmt,
     ForRangeLoop,
     FunctionDef,
@@ -2358,6 +2359,18 @@ def _parse_simple_lines(
             if main_loop and loop_depth == 1:
                 raise ValueError("cannot break out of the main loop()")
             body.append(BreakStmt())
+            i += 1
+            continue
+
+        if line == "continue":
+            if loop_depth <= 0:
+                raise ValueError("'continue' outside loop is not supported")
+            if main_loop and loop_depth == 1:
+                # The body of ``while True:`` is emitted as loop(): returning
+                # from it ends this pass and the runtime starts the next one.
+                body.append(ReturnStmt(expr=None))
+            else:
+                body.append(ContinueStmt())
             i += 1
             continue
 
